@@ -433,6 +433,18 @@ class Engine:
 
     def ev_Dict(self, e, st):
         if any(k is None for k in e.keys):
+            m = self.method_models.get("__dictmerge__")
+            if m is not None and all(k is None for k in e.keys):
+                outs = []
+                for s0, vals in self.ev_all(list(e.values), st):
+                    if is_raised(vals):
+                        outs.append((s0, vals))
+                        continue
+                    r = m(self, s0, list(vals), e)
+                    if r is None:
+                        raise Unsupported("dict display with ** unpacking")
+                    outs.extend(r)
+                return outs
             raise Unsupported("dict display with ** unpacking")
         if e.keys:
             # small literal dicts used as scopes: {name: None}
